@@ -16,8 +16,67 @@ pub enum Policy {
     /// priority based with `depth` random priority change points (PCT-like)
     Pct { depth: u32, horizon: u32 },
     /// explicit task ids for the first decisions, then the deterministic tail policy
-    /// "keep current if runnable else lowest id"
-    Replay { choices: Vec<u16> },
+    /// "keep current if runnable else lowest id". Written run-length encoded
+    /// (`[[task, repetitions], ...]`) in replay files; a flat list of ids is accepted too.
+    Replay {
+        #[serde(with = "rle")]
+        choices: Vec<u16>,
+    },
+}
+
+mod rle {
+    use serde::de::{self, SeqAccess, Visitor};
+    use serde::ser::SerializeSeq;
+    use serde::{Deserializer, Serializer};
+    use std::fmt;
+
+    pub fn serialize<S: Serializer>(v: &[u16], s: S) -> Result<S::Ok, S::Error> {
+        let mut runs: Vec<(u16, u32)> = Vec::new();
+        for &c in v {
+            match runs.last_mut() {
+                Some((t, n)) if *t == c => *n += 1,
+                _ => runs.push((c, 1)),
+            }
+        }
+        let mut seq = s.serialize_seq(Some(runs.len()))?;
+        for r in &runs {
+            seq.serialize_element(r)?;
+        }
+        seq.end()
+    }
+
+    #[derive(serde::Deserialize)]
+    #[serde(untagged)]
+    enum Item {
+        One(u16),
+        Run(u16, u32),
+    }
+
+    pub fn deserialize<'de, D: Deserializer<'de>>(d: D) -> Result<Vec<u16>, D::Error> {
+        struct V;
+        impl<'de> Visitor<'de> for V {
+            type Value = Vec<u16>;
+            fn expecting(&self, f: &mut fmt::Formatter) -> fmt::Result {
+                f.write_str("a list of task ids or of [task, repetitions] pairs")
+            }
+            fn visit_seq<A: SeqAccess<'de>>(self, mut seq: A) -> Result<Vec<u16>, A::Error> {
+                let mut out = Vec::new();
+                while let Some(it) = seq.next_element::<Item>()? {
+                    match it {
+                        Item::One(t) => out.push(t),
+                        Item::Run(t, n) => {
+                            if out.len() as u64 + n as u64 > 400_000_000 {
+                                return Err(de::Error::custom("schedule too long"));
+                            }
+                            out.extend(std::iter::repeat(t).take(n as usize));
+                        }
+                    }
+                }
+                Ok(out)
+            }
+        }
+        d.deserialize_seq(V)
+    }
 }
 
 #[derive(Clone, Debug, Serialize, Deserialize, PartialEq)]
